@@ -1,2 +1,3 @@
 pub mod c01;
 pub mod c04;
+pub mod c05;
